@@ -432,7 +432,31 @@ impl Exec {
                     }
                     let m = b.models(t, false);
                     let p = b.paths(t, false);
-                    format!("models {} {} paths {} {} depth {}", m.cmodels, m.models, p.cmodels, p.models, b.max_depth(t))
+                    // a near tie at full scale: x0 and not(x1 and ... and x_{k-1}) has one model fewer than
+                    // half of all assignments, its negation one more
+                    let (lt, gt) = if k >= 2 && k <= 64 {
+                        let x0 = b.variable(Var(0));
+                        let mut c = b.variable(Var(k - 1));
+                        for v in (1..k - 1).rev() {
+                            let x = b.variable(Var(v));
+                            c = b.and(x, c);
+                        }
+                        let nc = b.not(c);
+                        let f = b.and(x0, nc);
+                        let nf = b.not(f);
+                        let mf = b.models(f, false);
+                        let mnf = b.models(nf, false);
+                        (
+                            format!("{}", mf.more_models() as u8),
+                            format!("{}", mnf.more_models() as u8),
+                        )
+                    } else {
+                        ("-".to_string(), "-".to_string())
+                    };
+                    format!(
+                        "models {} {} paths {} {} depth {} neartie-more {} {}",
+                        m.cmodels, m.models, p.cmodels, p.models, b.max_depth(t), lt, gt
+                    )
                 }));
                 match r {
                     Ok(s) => out.line(&format!("~ {s}")),
